@@ -32,7 +32,7 @@ SLICE_RULE = ("direction A: every state of the TLC builder machine is one case; 
               "and distinct by the hash of its full JSON line (input and result).")
 
 PLANS = {
-    "_trace_of_suite": {"slice": "TraceSlice", "build": "TraceBuild", "codes": "TraceCodes"},
+    "_trace_of_suite": {"slice": "TraceSlice", "build": "TraceBuild", "codes": "TraceCodes", "reader": "TraceReader"},
     "C01": dict(
         sany=["DltCodec.tla", "mc/MCCodec.tla", "trace/TraceSlice.tla"],
         steps=[
@@ -220,5 +220,36 @@ PLANS = {
                     "every MSIN byte through MessageType::try_from / u8::from and through parser + writer, every one of the 2^18 words through TypeInfo::try_from / as_bytes in both "
                     "orders / try_from again; TLC validates each line against the statement's laws. The 14 reserved bits: one congruence (decode ignores them, encode writes zero), "
                     "swept on the code side against the code's own result for the low 18 bits - quick: 2^18 x 1024 seeded settings, thorough: all 2^32 words.",
+    ),
+    "C07": dict(
+        sany=["Reader.tla", "mc/MCReader.tla", "mc/MCReaderSim.tla", "trace/TraceReader.tla"],
+        steps=[
+            mc("reader", "MCReader", "MCReader_quick.cfg", "MCReader_thorough.cfg"),
+            mc("readersim", "MCReaderSim", "MCReaderSim.cfg", "MCReaderSim.cfg", replay=("reader", "blocking"), workers=4, simulate={"quick": "num=3000", "thorough": "num=100000"}),
+            rec("reader", "blocking", "TraceReader", 1500, 40000, 3, 10),
+        ],
+        rule="direction A: one case per simulated behaviour of the Reader machine (stream from the model's family, schedule of short reads / interruptions); direction B: seeded random "
+             "streams (well-formed, truncated, garbage-tailed, hostile lengths 0..3, maximal declared length) x random schedules (1-byte, heavy interruption, unlimited, mixed) plus "
+             "systematic 1-, 2-partitions; a session is non-trivial with >= 2 source reads; distinct by the hash of the JSON line",
+        explanation="MC (exhaustive, no history variable): the Reader machine over 102 streams (3 messages with / without storage header truncated at every byte, declared lengths 0..3, "
+                    "arbitrary bytes): every partition of the stream into read results and every placement of Interrupted: Safe (delivered = prefix of the stream cut at the declared "
+                    "lengths), AtEnd (all complete messages delivered; a tail ends in eos or err, never a message), EndIsDetermined, and the temporal property Terminates under weak "
+                    "fairness of the progressing actions. A: simulated schedules replayed through a scripted Read into DltMessageReader. B: recorded sessions of next_message_slice "
+                    "and read_message (with filters) over scripted sources; TLC checks lengths = Cut(stream), identical content, allowed ending, read_message = parse of each piece, "
+                    "and reports (without alarm) any log the machine cannot explain.",
+    ),
+    "C08": dict(
+        sany=["Reader.tla", "mc/MCReader.tla", "mc/MCReaderSim.tla", "trace/TraceReader.tla"],
+        steps=[
+            mc("reader", "MCReader", "MCReader_quick.cfg", "MCReader_thorough.cfg"),
+            mc("readersim", "MCReaderSim", "MCReaderSim.cfg", "MCReaderSim.cfg", replay=("reader", "pair"), workers=4, simulate={"quick": "num=3000", "thorough": "num=100000"}),
+            rec("reader", "pair", "TraceReader", 1500, 40000, 3, 10),
+            rec("reader", "async", "TraceReader", 500, 10000, 1, 4, salt=11),
+        ],
+        rule="as C07, each stream and schedule run through both readers (Poll::Pending where the blocking source returns Interrupted)",
+        explanation="The async reader is the blocking machine with the retry action named Pending, so the exhaustive exploration of MCReader (every partition, every placement of "
+                    "retries, Terminates under fairness that excludes infinite Pending) covers it. A: each simulated schedule is run through both real readers and the delivered "
+                    "sequences and terminal classes compared. B: pair events (both readers, next_message_slice and read_message, same bytes and schedule): TLC checks equal deliveries, "
+                    "equal terminal class, identical content, no panic; async sessions are additionally validated like C07 sessions.",
     ),
 }
